@@ -11,6 +11,26 @@ from ..universe import gen_universe
 from .c11 import cli_argv
 
 PROPERTY = "C16"
+# valid UTF-8 response bodies around the characters a YAML double-quoted scalar / JSON string / XML text must escape
+# (None = the peer's default: invalid UTF-8 with control characters)
+HOSTILE_TEXTS = [
+    None,
+    '{"t": "line \u2028 two \u2029 three"}',
+    "first\u2028--- second\u2029... third \u2028 ",
+    "nel\x85 here \ufeff bom \ud7ff \ue000 \ufffd end",
+    "tabs\t and \r\n crlf  trailing  \n",
+    '"quoted" \\ back\\slash \x00 nul \x1f us \x7f del',
+    "astral \U0001F600 and \U0010FFFF max",
+    "key: value\n- item\n# comment\n--- \n... \n",
+]
+
+
+def universe_hash(*parts) -> int:
+    from ..universe import content_hash
+
+    return content_hash(*parts)
+
+
 HOSTILE = ["hostile_body", "hostile_header", "hostile_reason", "empty_body", "big_body", "set_cookie", "no_content_type", "malformed_json"]
 FAILING = ["http500", "undocumented", "marker"]
 NOREPLY = ["connect", "reset", "read_timeout", "chunked"]
@@ -53,6 +73,10 @@ def gen_desc(verif_seed: int, i: int, tier: str = "quick") -> dict:
     for b in behaviour:
         if b["deviation"] == "big_body":
             b["size"] = rng.choice([5_000, 40_000])
+        if b["deviation"] == "hostile_body":
+            k = universe_hash(rs, b["op"]) % len(HOSTILE_TEXTS)
+            if HOSTILE_TEXTS[k] is not None:
+                b["text"] = HOSTILE_TEXTS[k]
     formats = rng.choice([["vcr"], ["har"], ["junit"], ["vcr", "har"], ["vcr", "har", "junit"], ["vcr", "har", "junit"], ["junit", "vcr"]])
     preserve = rng.random() < 0.5 and ("vcr" in formats or "har" in formats)
     sanitize = rng.random() < 0.5
